@@ -8,11 +8,23 @@ pub mod c05;
 pub mod c13;
 pub mod c17;
 pub mod c18;
+pub mod c19;
+pub mod c20;
+pub mod c24;
+pub mod c25;
+pub mod c27;
 pub mod c28;
 pub mod c29;
+pub mod c31;
+pub mod c32;
 pub mod c36;
 pub mod df;
+pub mod projgen;
 
+#[path = "../gen_synth.rs"]
+pub mod gen_synth;
+#[path = "../r3_netlist.rs"]
+pub mod r3_netlist;
 #[path = "../gen_values.rs"]
 pub mod gen_values;
 #[path = "../gen_sim.rs"]
@@ -28,8 +40,15 @@ pub fn registry() -> Vec<(&'static str, CheckFn)> {
         ("C13", c13::run as CheckFn),
         ("C17", c17::run as CheckFn),
         ("C18", c18::run as CheckFn),
+        ("C19", c19::run as CheckFn),
+        ("C20", c20::run as CheckFn),
+        ("C24", c24::run as CheckFn),
+        ("C25", c25::run as CheckFn),
+        ("C27", c27::run as CheckFn),
         ("C28", c28::run as CheckFn),
         ("C29", c29::run as CheckFn),
+        ("C31", c31::run as CheckFn),
+        ("C32", c32::run as CheckFn),
         ("C36", c36::run as CheckFn),
     ]
 }
@@ -49,7 +68,14 @@ pub fn replay(path: &str) -> i32 {
         "C13" => c13::replay(&doc),
         "C17" => c17::replay(&doc),
         "C18" => c18::replay(&doc),
+        "C19" => c19::replay(&doc),
+        "C20" => c20::replay(&doc),
+        "C24" => c24::replay(&doc),
+        "C25" => c25::replay(&doc),
+        "C27" => c27::replay(&doc),
         "C28" => c28::replay(&doc),
+        "C31" => c31::replay(&doc),
+        "C32" => c32::replay(&doc),
         "C36" => c36::replay(&doc),
         "C29" => c29::replay(&doc),
         x => {
@@ -59,7 +85,13 @@ pub fn replay(path: &str) -> i32 {
     }
 }
 
-pub fn worker(_args: &[String]) -> i32 {
-    eprintln!("unknown worker");
-    2
+pub fn worker(args: &[String]) -> i32 {
+    match args.first().map(|x| x.as_str()) {
+        Some("c31") => c31::worker(&args[1..]),
+        Some("synth-probe") => c19::probe(&args[1..]),
+        _ => {
+            eprintln!("unknown worker");
+            2
+        }
+    }
 }
